@@ -60,7 +60,10 @@ Definition fan_ok (c : bc_case) (fan : list slot) (sorted : list nat) : bool :=
 Definition bc_hyps_ok (c : bc_case) : bool :=
   fan_ok c (bc_ve1 c) (bc_se1 c) && fan_ok c (bc_ve2 c) (bc_se2 c) &&
   match bc_cells c with
-  | [um; up; lm; lp] => Nat.eqb (c_eid c (um, 2%nat)) (c_eid c (up, 2%nat)) && Nat.eqb (c_eid c (lm, 2%nat)) (c_eid c (lp, 2%nat))
+  | [um; up; lm; lp] => Nat.eqb (c_eid c (um, 2%nat)) (c_eid c (up, 2%nat)) && Nat.eqb (c_eid c (lm, 2%nat)) (c_eid c (lp, 2%nat)) &&
+                        (* "minus"/"plus" cells are children 2v, 2v+1 of one coarse element; upper and lower differ *)
+                        Nat.eqb up (S um) && Nat.eqb lp (S lm) && Nat.even um && Nat.even lm &&
+                        negb (Nat.eqb (um / 6) (lm / 6)) && Nat.eqb (um / 6) (up / 6) && Nat.eqb (lm / 6) (lp / 6)
   | _ => false
   end &&
   forallb (fun p => negb (Qeq_bool (snd p) 0)) (bc_len c) && Nat.ltb 0 (bc_nc1 c) && Nat.ltb 0 (bc_nc2 c).
